@@ -147,7 +147,7 @@ def match_brace(m, i, open_="{", close="}"):
 def excluded_spans(m):
     """#[cfg(test)] and #[cfg(pdf_rs_pdf_verif)] items/statements, macro_rules bodies"""
     spans = []
-    for mt in re.finditer(r"#\[cfg\((?:test|pdf_rs_pdf_verif|all\(test[^\]]*)\)\]", m):
+    for mt in re.finditer(r"#\[cfg\((?:test|pdf_rs_pdf_verif|all\(test[^\]]*)\)\]|#\[test\]", m):
         j = mt.end()
         # the item ends at the first `;` or at the brace matching the first `{`, whichever starts first
         k1 = m.find(";", j)
@@ -842,6 +842,17 @@ def cmd_run(a):
     if a.ids:
         keep = set(a.ids.split(","))
         ms = [m for m in ms if m["id"] in keep or str(m["n"]) in keep]
+    results_path = RESULTS
+    if a.all_props:
+        # second pass over chosen mutants (e.g. the gaps): every one of the 20 checks, to tell a gap of the framework from a
+        # gap of the file -> property map in properties.jsonl; kept apart from the sweep's results
+        results_path = os.path.join(OUT, "results_allprops.jsonl")
+        allp = sorted(load_props())
+        done = {}
+        if os.path.exists(results_path):
+            done = {json.loads(l)["id"]: {} for l in open(results_path) if l.strip()}
+        for m in ms:
+            m["props"] = allp
     todo = [m for m in ms if m["id"] not in done]
     if a.limit:
         todo = todo[:a.limit]
@@ -864,11 +875,11 @@ def cmd_run(a):
                 rec = {"id": mu["id"], "n": mu["n"], "file": mu["file"], "line": mu["line"], "operator": mu["operator"], "outcome": "driver-error", "note": repr(e)}
                 w.revert()
             with lock:
-                with open(RESULTS, "a") as f:
+                with open(results_path, "a") as f:
                     f.write(json.dumps(rec) + "\n")
                 if rec.get("tests"):
                     state["passing"] += 1
-                if rec["outcome"] == "survived":
+                if rec["outcome"] == "survived" and not a.all_props:
                     open(os.path.join(SURV, "%04d.diff" % mu["n"]), "w").write(rec["diff"])
                 ck = " ".join("%s=%s" % (p, c["exit"]) for p, c in rec.get("checks", {}).items())
                 print("[%s] #%04d %-14s %s:%d %-9s %-40s %ss %s" % (time.strftime("%H:%M:%S"), mu["n"], rec["outcome"], mu["file"].replace("pdf/src/", ""), mu["line"],
@@ -987,6 +998,18 @@ def cmd_report(a):
                     ana[int(d["n"])] = d
                 except Exception as e:
                     print("unreadable analysis", fn, e)
+    allp = {}
+    ap = os.path.join(OUT, "results_allprops.jsonl")
+    if os.path.exists(ap):
+        for l in open(ap):
+            if l.strip():
+                r2 = json.loads(l)
+                allp[r2["n"]] = r2
+    def caught_by_unmapped(n):
+        r2 = allp.get(n)
+        if not r2:
+            return None
+        return sorted(p for p, c in r2.get("checks", {}).items() if c["exit"] == 1)
     L = []
     w = L.append
     head = res[0].get("diff", "") and subprocess.run(["git", "-C", REPO, "rev-parse", "--short", "HEAD"], stdout=subprocess.PIPE).stdout.decode().strip()
@@ -994,7 +1017,7 @@ def cmd_report(a):
     w("Driver: `tools/mutate.py` (seed 20260929, library at `%s`, framework branch `b/mut`, quick tier, check seed 20260927).  "
       "A mutant is **detected** when at least one relevant `bin/vp check Cxx` exits 1, **survived** otherwise; relevant = every property whose "
       "`anchors.files` names the mutated file, plus C01 and C14 for files under `parser/`, `object/`, `enc.rs`, `font.rs`, `crypt.rs`, `file.rs`, `backend.rs`, `xref.rs`.  "
-      "The unchanged tree was checked first in all three worker worktrees: all 20 checks exit 0 (`build/mut/baseline.json`).\n" % head)
+      "The unchanged tree was checked first in all three worker worktrees: all 20 checks exit 0 (`mutation/baseline.json`).\n" % head)
     w("## 1. Totals\n")
     w("| | mutants |\n|---|---|")
     w("| generated (sites enumerated over 23 anchored files) | %d |" % len(load_mutants()))
@@ -1007,12 +1030,19 @@ def cmd_report(a):
     for k in tot:
         if k not in ("not-compiling", "killed-by-tests", "detected", "survived"):
             w("| %s | %d |" % (k, tot[k]))
+    gaps = [r for r in surv if ana.get(r["n"], {}).get("verdict") == "GAP"]
+    map_gaps = [r for r in gaps if caught_by_unmapped(r["n"])]
     nG = sum(1 for r in surv if ana.get(r["n"], {}).get("verdict") == "GAP")
     nE = sum(1 for r in surv if ana.get(r["n"], {}).get("verdict") == "EQUIVALENT")
     nU = len(surv) - nG - nE
     w("\nSurvivors by analysis: **%d gaps** (demonstrated on the real crate), %d equivalent w.r.t. the 20 properties, %d undemonstrated/unanalysed.  "
       "Detection rate over the non-equivalent mutants (detected / (detected + gaps + undemonstrated)): **%.1f %%**.\n"
       % (nG, nE, nU, 100.0 * len(det) / max(1, len(det) + nG + nU)))
+    if allp:
+        w("Every gap was run a second time against **all 20 checks** (`mutation/results_allprops.jsonl`): %d of the %d gaps are detected by a property "
+          "that `properties.jsonl` does not map to the mutated file (a gap of the file → property map, not of the checks); %d are detected by no check at all.  "
+          "With the complete suite run on every mutant the detection rate over non-equivalent mutants would be (%d + %d) / %d = **%.1f %%**.\n"
+          % (len(map_gaps), len(gaps), len(gaps) - len(map_gaps), len(det), len(map_gaps), len(det) + nG + nU, 100.0 * (len(det) + len(map_gaps)) / max(1, len(det) + nG + nU)))
 
     w("## 2. Detection per property\n")
     w("`run` = test-passing mutants for which the property's check was run; `exit 1` = the check reported a VIOLATION; `concrete` = at least one "
@@ -1104,6 +1134,9 @@ def cmd_report(a):
         tag = v + (" (%s)" % d["flavour"] if d.get("flavour") and v == "EQUIVALENT" else "") + ((" — " + d["property"]) if d.get("property") and v != "EQUIVALENT" else "")
         w("**%s.** %s" % (tag, d.get("paragraph", "").strip()))
         if v == "GAP":
+            cb = caught_by_unmapped(r["n"])
+            if cb is not None:
+                w("  *All 20 checks on this mutant:* " + ("detected by **%s** (not mapped to `%s` in properties.jsonl)." % (", ".join(cb), r["file"]) if cb else "no check detects it."))
             dm = d.get("demo") or {}
             w("  *Demo:* `mutation/demos/%s` — unchanged: %s; mutant: %s.  *Why missed:* %s  *Proposal:* %s" % (
                 os.path.basename(dm.get("test", "?")), dm.get("original", "?"), str(dm.get("mutant", "?"))[:300], d.get("why_missed", ""), d.get("proposal", "")))
@@ -1115,7 +1148,9 @@ def cmd_report(a):
         for n in gaps_by_prop[p]:
             d = ana[n]
             r = [x for x in surv if x["n"] == n][0]
-            w("* **#%04d** `%s:%d` %s (%s) — %s  **Strengthening:** %s" % (n, r["file"], r["line"], r["operator"], r["detail"], (d.get("why_missed") or "").strip(), (d.get("proposal") or "").strip()))
+            cb = caught_by_unmapped(n)
+            cbt = "" if cb is None else (" [full suite: caught by %s]" % ", ".join(cb) if cb else " [full suite: caught by no check]")
+            w("* **#%04d** `%s:%d` %s (%s)%s — %s  **Strengthening:** %s" % (n, r["file"], r["line"], r["operator"], r["detail"], cbt, (d.get("why_missed") or "").strip(), (d.get("proposal") or "").strip()))
         w("")
     extra = os.path.join(ad, "STRENGTHENED.md")
     if os.path.exists(extra):
@@ -1132,6 +1167,7 @@ def main():
     r = sub.add_parser("run"); r.add_argument("--workers", required=True); r.add_argument("--limit", type=int, default=0)
     r.add_argument("--target-pass", type=int, default=0); r.add_argument("--only-files", default=""); r.add_argument("--ids", default="")
     r.add_argument("--stop-on-detect", action="store_true"); r.add_argument("--check-jobs", type=int, default=1)
+    r.add_argument("--all-props", action="store_true")
     b = sub.add_parser("baseline"); b.add_argument("--workers", required=True)
     s = sub.add_parser("show"); s.add_argument("n")
     sub.add_parser("stats")
